@@ -29,6 +29,7 @@ RULES = {
                     "best_* written nowhere else; train_cmaes sets the candidate it evaluates and un-negates the reported value",
     "R3-mean": "mean' == sum(weights[:,None] * samples[argsort(fitness)[:mu]], axis=0); last_mean' == old mean",
     "R4-step-size": "var' == var * exp(min(0.6, log_step_size_update))^2",
+    "R7-covariance-form": "cov' == scalar * cov + c * outer(p, p) + c' * X^T diag(w) X [- c'' * Y^T diag(w) Y]: every added term is symmetric by construction, and the negative (active) quadratic form is the positive one with the worst mu candidates in place of the best (same centre, same step-size scaling, same weights)",
     "R5-flat-set": "flat_params and set_params use nnx.state(net, nnx.Param) leaves in tree_leaves order; consecutive slices of prod(leaf.shape) reshaped to leaf.shape; nnx.update(net, state)",
     "R6-cem": "elites == take(samples, top_k(fitness, n_elite).indices, axis=0); optimize_cem passes bounds (lb, ub) in order and updates from the fitness of the very samples it ranks",
 }
@@ -186,6 +187,7 @@ def r2_feedback_table(ck, repo, nf):
                 for tg in (n.targets if isinstance(n, ast.Assign) else [n.target]):
                     if isinstance(tg, ast.Attribute) and tg.attr in BEST_FIELDS:
                         ck.ob("R2-incumbent", qual, f"foreign-writer:{tg.attr}", False, short(n), "the incumbent may only be written by set_evaluation_feedback", loc(mi2, n))
+    _incumbent_is_a_value(ck, repo, q, fn, mi, POP)
     gq = CM + "get_next_parameters"
     gfn = split_conditional_assignments(repo.func(gq))
     ck._keep.append(gfn)
@@ -206,6 +208,92 @@ def r2_feedback_table(ck, repo, nf):
             elif not same_ingredients(g, want):
                 raise AnalysisError(f"{gq}: returns `{g.canon()[:80]}` (unrecognised form)")
         ck.ob("R2-incumbent", gq, "same-index-as-feedback", ok, f"return {g.canon()[:100]}", "" if ok else why, loc(gfn._module, gfn))
+
+
+INPLACE_METHODS = ("fill", "sort", "put", "partition", "itemset", "resize", "setfield", "__setitem__")
+INPLACE_FUNCS = ("numpy.copyto", "numpy.put", "numpy.place", "numpy.putmask", "numpy.put_along_axis")
+COPIES = ("copy", "array", "asarray", "deepcopy", "tolist", "tuple", "list", "device_put")
+
+
+def _host_array_field(repo, mi, fields):
+    """Is one of ``fields`` declared / built as a numpy array in a class of the module?"""
+    for n in ast.walk(mi.tree):
+        if isinstance(n, ast.AnnAssign) and isinstance(n.target, ast.Name) and n.target.id in fields and repo.resolve_expr(mi, n.annotation) == "numpy.ndarray":
+            return True
+        if isinstance(n, ast.Assign) and any(isinstance(t, ast.Attribute) and t.attr in fields for t in n.targets) and isinstance(n.value, ast.Call):
+            d_ = repo.resolve_expr(mi, n.value.func) if isinstance(n.value.func, (ast.Name, ast.Attribute)) else None
+            if d_ in ("numpy.array", "numpy.empty", "numpy.zeros", "numpy.asarray", "numpy.ones", "numpy.empty_like", "numpy.zeros_like"):
+                return True
+    return False
+
+
+def _incumbent_is_a_value(ck, repo, q, fn, mi, POP):
+    """The recorded best parameters are a value: if the storage the candidate is read from is ever overwritten in place, the stored
+    incumbent must be a copy - an index into a host array is a view that changes with the storage."""
+    # where do the candidate parameters come from (field of the population object)?
+    stores = [n for n in ast.walk(fn) if isinstance(n, ast.Assign) and any(isinstance(t, ast.Attribute) and t.attr == "best_params" for t in n.targets)]
+    if not stores:
+        raise AnalysisError(f"{q}: no assignment to best_params (anchor vanished)")
+
+    def resolve_local(e, depth=0):
+        if isinstance(e, ast.Name) and depth < 4:
+            ds = [n for n in ast.walk(fn) if isinstance(n, ast.Assign) and any(isinstance(t, ast.Name) and t.id == e.id for t in n.targets)]
+            if len(ds) == 1:
+                return resolve_local(ds[0].value, depth + 1)
+        return e
+    fields, views = set(), []
+    for st_ in stores:
+        v = resolve_local(st_.value)
+        copied = False
+        while isinstance(v, ast.Call):
+            d_ = dotted(v.func) or ""
+            if d_.split(".")[-1] in COPIES and (v.args or isinstance(v.func, ast.Attribute)):
+                copied = True
+                v = resolve_local(v.args[0] if v.args else v.func.value)
+            else:
+                break
+        base = v
+        while isinstance(base, ast.Subscript):
+            base = resolve_local(base.value)
+        if isinstance(base, ast.Attribute) and isinstance(base.value, ast.Name) and base.value.id == POP:
+            fields.add(base.attr)
+            if not copied:
+                views.append((st_, base.attr))
+        elif not copied:
+            raise AnalysisError(f"{q}: best_params := `{short(st_.value, 60)}` - where the stored parameters come from is not recognised")
+    # in-place writers of that field anywhere in the module
+    writers, maybe = [], []
+    for qual, f2, mi2 in repo.all_functions():
+        if mi2 is not mi or "<locals>" in qual:
+            continue
+        alias = {}
+        for n in ast.walk(f2):
+            if isinstance(n, ast.Assign) and len(n.targets) == 1 and isinstance(n.targets[0], ast.Name) and isinstance(n.value, ast.Attribute) and n.value.attr in fields:
+                alias[n.targets[0].id] = n.value.attr
+
+        def is_field(e):
+            return (isinstance(e, ast.Attribute) and e.attr in fields) or (isinstance(e, ast.Name) and e.id in alias)
+        for n in ast.walk(f2):
+            if isinstance(n, (ast.Assign, ast.AugAssign)):
+                for tg in (n.targets if isinstance(n, ast.Assign) else [n.target]):
+                    if isinstance(tg, ast.Subscript) and is_field(tg.value):
+                        (writers if _host_array_field(repo, mi2, fields) else maybe).append((qual, mi2, n))
+            elif isinstance(n, ast.Call):
+                d_ = repo.resolve_expr(mi2, n.func) if isinstance(n.func, (ast.Name, ast.Attribute)) else None
+                if d_ in INPLACE_FUNCS and n.args and is_field(n.args[0]):
+                    writers.append((qual, mi2, n))
+                elif isinstance(n.func, ast.Attribute) and n.func.attr in INPLACE_METHODS and is_field(n.func.value):
+                    writers.append((qual, mi2, n))
+                elif any(k.arg == "out" and is_field(k.value) for k in n.keywords):
+                    writers.append((qual, mi2, n))
+    if views and maybe and not writers:
+        raise AnalysisError(f"{q}: `{short(maybe[0][2], 60)}` stores into population.{views[0][1]} by index while best_params keeps an uncopied element of it - whether that storage is a host array (view) or a list of values is not known")
+    ok = not (views and writers)
+    ck.ob("R2-incumbent", q, "incumbent-is-a-value", ok,
+          f"best_params is read from population.{'/'.join(sorted(fields))}; in-place writers of that storage in the module: {len(writers)}; stored without a copy at {len(views)} site(s)" if ok else
+          f"`{short(views[0][0], 60)}` and `{short(writers[0][2], 60)}` in {writers[0][0].split('.')[-1]}",
+          "" if ok else f"the incumbent is stored as an index into population.{views[0][1]} without a copy while that storage is overwritten in place: with a host array the recorded best parameters change to another candidate at the next overwrite, while best_fitness keeps the old value",
+          loc(mi, views[0][0]) if views else loc(mi, fn))
 
 
 def r2_train_loop(ck, repo, nf):
@@ -333,6 +421,128 @@ def r34_update(ck, repo, nf):
         if verdict is None:
             raise AnalysisError(f"{q}: var' = `{var.canon()[:120]}` (unrecognised form)")
         ck.ob("R4-step-size", q, "capped-growth", verdict, f"var' = {var.canon()[:150]}", "" if verdict else f"must be var * exp(min(0.6, log_step_size_update))**2: the step size grows by at most exp(0.6) per update ({why})", loc(mi, fn))
+
+
+# ---- R7 ------------------------------------------------------------------------------------------------------------------------------------
+def _quadratic_form(nf, atom):
+    """(X, W, Y) for an atom that denotes X^T diag(W) Y, else None."""
+    m = nf.meta.get(atom, {})
+    fname = m.get("fn", "").split(".")[-1]
+    if fname not in ("dot", "matmul") or len(m.get("args", [])) != 2:
+        return None
+    left, right = m["args"]
+    lm = nf.meta.get(left.single_atom() or "", {})
+    lf = lm.get("fn", "").split(".")[-1]
+
+    def transposed(p):
+        mm = nf.meta.get(p.single_atom() or "", {})
+        return mm["args"][0] if mm.get("fn", "").split(".")[-1] in ("T", "transpose") and len(mm.get("args", [])) == 1 else None
+    if lf in ("dot", "matmul") and len(lm.get("args", [])) == 2:
+        x = transposed(lm["args"][0])
+        dm = nf.meta.get(lm["args"][1].single_atom() or "", {})
+        if x is not None and dm.get("fn", "").split(".")[-1] == "diag" and len(dm.get("args", [])) == 1:
+            return x, dm["args"][0], right
+        return None
+    inner = transposed(left)
+    if inner is not None:
+        # (w[:, None] * X)^T Y: every term of the transposed factor carries the same broadcast weight atom exactly once
+        cands = None
+        for mono, _c in inner.terms.items():
+            ws = {a for a, k in mono if k == 1 and nf.meta.get(a, {}).get("fn") == "subscript" and (a.endswith("[:, jax.numpy.newaxis]") or a.endswith("[:, numpy.newaxis]") or a.endswith("[:, None]"))}
+            cands = ws if cands is None else cands & ws
+        if cands and len(cands) == 1:
+            w = next(iter(cands))
+            x = inner.subst({w: Poly.const(1)})
+            wm = nf.meta.get(w, {})
+            return x, (wm.get("args") or [None])[0], right
+    return None
+
+
+def _affine_in(x, name):
+    """Is the polynomial a scaled and shifted copy of the atom ``name`` (degree one, not nested inside another atom)?"""
+    seen = False
+    for mono, _c in x.terms.items():
+        for a, k in mono:
+            if a == name:
+                if k != 1:
+                    return False
+                seen = True
+            elif name in a:
+                return False
+    return seen
+
+
+def r7_covariance(ck, repo, nf):
+    q = CM + "update_search_distribution"
+    fn = repo.func(q)
+    mi = fn._module
+    cfg = nf.cfg_of(fn)
+    env = _env(fn)
+    CONF, ST, POP = param_names(fn)[:3]
+    olds = {f"{ST}.{k}": Poly.atom(f"old.{ST}.{k}") for k in ("mean", "last_mean", "var", "ps", "pc", "cov", "invsqrtC", "it", "eigen_decomp_updated")}
+    sc0 = Scope(None, mi, env, q)
+    best = nf.poly(parse_expr(f"{POP}.samples[jnp.argsort(jnp.asarray({POP}.fitness), axis=0)[:{CONF}.mu]]"), sc0, None)
+    worst = nf.poly(parse_expr(f"{POP}.samples[jnp.argsort(jnp.asarray({POP}.fitness), axis=0)[::-1][:{CONF}.mu]]"), sc0, None)
+    SEL = Poly.atom("⟨selected⟩")
+    OC = f"old.{ST}.cov"
+    done = set()
+    n_forms = 0
+    for p in enumerate_paths(cfg, cfg.entry, {cfg.exit}):
+        pe = PathEval(nf, cfg, mi, q, env)
+        pe.store = dict(olds)
+        pe.run(p)
+        cov = pe.store[f"{ST}.cov"]
+        if cov.canon() in done:
+            continue
+        done.add(cov.canon())
+        where = loc(mi, fn)
+        forms, ranks = {}, {}
+        for mono, c in cov.terms.items():
+            d = dict(mono)
+            mats = [a for a in d if a == OC or nf.meta.get(a, {}).get("fn", "").split(".")[-1] in ("dot", "matmul", "outer")]
+            if len(mats) != 1 or d[mats[0]] != 1:
+                raise AnalysisError(f"{q}: covariance term `{Poly({mono: c}).canon()[:100]}` is not a scalar multiple of the old covariance, an outer product or a quadratic form (unrecognised form)")
+            a = mats[0]
+            if a == OC:
+                continue
+            if nf.meta[a]["fn"].split(".")[-1] == "outer":
+                ranks[a] = nf.meta[a]["args"]
+            else:
+                qf = _quadratic_form(nf, a)
+                if qf is None:
+                    raise AnalysisError(f"{q}: matrix term `{a[:100]}` is not read as X^T diag(w) Y (unrecognised form)")
+                forms.setdefault(a, (qf, []))[1].append((Poly({tuple(sorted((k_, v_) for k_, v_ in d.items() if k_ != a)): c})))
+        if not forms:
+            raise AnalysisError(f"{q}: no rank-mu quadratic form in cov' (anchor vanished)")
+        for a, args in ranks.items():
+            ok = len(args) == 2 and args[0] == args[1]
+            ck.ob("R7-covariance-form", q, "rank-one-symmetric", ok, f"outer({args[0].canon()[:50]}, {args[1].canon()[:50] if len(args) > 1 else ''})", "" if ok else "outer(a, b) with a != b is not symmetric: the covariance loses symmetry", where)
+        per_sel = {}
+        for a, ((x, w, y), coefs) in forms.items():
+            n_forms += 1
+            ok = x == y
+            ck.ob("R7-covariance-form", q, f"quadratic-form-symmetric:{len(per_sel)}", ok, f"X^T diag(w) Y with X = {x.canon()[:80]}", "" if ok else f"the two factors differ (Y = {y.canon()[:80]}): the term is not symmetric", where)
+            kind = "best" if any(at in x.atoms() for at in best.atoms()) and not any(at in x.atoms() for at in worst.atoms() - best.atoms()) else "worst" if any(at in x.atoms() for at in worst.atoms()) else None
+            # normalise the selection away
+            b_at, w_at = best.single_atom(), worst.single_atom()
+            if b_at is None or w_at is None:
+                raise AnalysisError(f"{q}: selection of the best / worst candidates has no atomic normal form")
+            if w_at in x.atoms():
+                per_sel["worst"] = (x.subst({w_at: SEL}), w, x)
+            elif b_at in x.atoms():
+                per_sel["best"] = (x.subst({b_at: SEL}), w, x)
+            else:
+                raise AnalysisError(f"{q}: quadratic form over `{x.canon()[:100]}` - neither the best nor the worst mu candidates of the ranking (unrecognised form)")
+        if "best" not in per_sel:
+            raise AnalysisError(f"{q}: no quadratic form over the best mu candidates in cov' (unrecognised form)")
+        if "worst" in per_sel:
+            (xb, wb, rawb), (xw, ww, raww) = per_sel["best"], per_sel["worst"]
+            ok = xb == xw and (wb is None or ww is None or wb == ww)
+            if not ok and not (_affine_in(xw, "⟨selected⟩") and _affine_in(xb, "⟨selected⟩") and (wb is None or ww is None or wb == ww or same_ingredients(wb, ww))):
+                raise AnalysisError(f"{q}: negative update over `{raww.canon()[:100]}` (unrecognised form)")
+            ck.ob("R7-covariance-form", q, "negative-update-mirrors-positive", ok, f"worst: {raww.canon()[:110]}  |  best: {rawb.canon()[:110]}",
+                  "" if ok else "the negative rank-mu term is not the positive one with the worst candidates in place of the best (centre / step-size scaling / weights differ): the subtraction is mis-scaled and can drive variances negative", where)
+    ck.floor("covariance-quadratic-forms", n_forms, 3)
 
 
 # ---- R5 ------------------------------------------------------------------------------------------------------------------------------------
@@ -625,12 +835,18 @@ def run(ck, repo: Repo, tier: str):
     ck.guard(r2_feedback_table, ck, repo, nf)
     ck.guard(r2_train_loop, ck, repo, nf)
     ck.guard(r34_update, ck, repo, nf)
+    ck.guard(r7_covariance, ck, repo, nf)
     ck.guard(r5_flat_set, ck, repo, nf)
     ck.guard(r6_cem, ck, repo, nf)
 
 
 _C, _X = "rl_blox/algorithm/cmaes.py", "rl_blox/blox/cross_entropy_method.py"
 MUTANTS = [
+    {"id": "c16-neg-update-var-scale", "file": _C, "rule": "R7", "find": "        neg_update /= sigma\n", "replace": "        neg_update /= state.var\n"},
+    {"id": "c16-neg-update-centre", "file": _C, "rule": "R7", "find": "        neg_update -= state.last_mean\n", "replace": "        neg_update -= state.mean\n"},
+    {"id": "c16-rank-one-asymmetric", "file": _C, "rule": "R7", "find": "    rank_one_update = jnp.outer(state.pc, state.pc)", "replace": "    rank_one_update = jnp.outer(state.pc, state.ps)"},
+    {"id": "c16-incumbent-view", "file": _C, "rule": "R2", "edits": [("            population = Population.create(\n                samples=sample_population(config, state)\n            )\n", "            np.copyto(population.samples, sample_population(config, state))\n            population.fitness[:] = [np.inf] * len(population.fitness)\n"),
+        ("        return cls(samples=samples, fitness=[np.inf] * len(samples))", "        return cls(samples=np.array(samples), fitness=[np.inf] * len(samples))")]},
     {"id": "c16-next-clipped", "file": _C, "rule": "R2", "find": "    return population.samples[k]", "replace": "    return jnp.clip(population.samples[k], -1.0, 1.0)"},
     {"id": "c16-feedback-steps", "file": _C, "rule": "R2", "find": "        set_evaluation_feedback(config, state, population, ret)", "replace": "        set_evaluation_feedback(config, state, population, step_counter)"},
     {"id": "c16-cem-stale-fitness", "file": _X, "rule": "R6", "edits": [("        f = fitness_function(samples)\n", "        f = fitness_function(mean[jnp.newaxis] + 0.0 * samples)\n")], "accept_error": True},
@@ -657,6 +873,9 @@ MUTANTS = [
     {"id": "c16-cem-bounds-swapped", "file": _X, "rule": "R6", "find": "        samples = cem_sample(mean, var, step_key, n_population, lb, ub)", "replace": "        samples = cem_sample(mean, var, step_key, n_population, ub, lb)"},
 ]
 BENIGN = [
+    {"id": "c16-b-scatter-broadcast", "file": _C, "find": "    rank_mu_update = noise.T.dot(jnp.diag(config.weights)).dot(noise)", "replace": "    rank_mu_update = (config.weights[:, jnp.newaxis] * noise).T.dot(noise)"},
+    {"id": "c16-b-incumbent-copied", "file": _C, "edits": [("            population = Population.create(\n                samples=sample_population(config, state)\n            )\n", "            np.copyto(population.samples, sample_population(config, state))\n            population.fitness[:] = [np.inf] * len(population.fitness)\n"),
+        ("        return cls(samples=samples, fitness=[np.inf] * len(samples))", "        return cls(samples=np.array(samples), fitness=[np.inf] * len(samples))"), ("        state.best_params = population.samples[k]", "        state.best_params = np.array(population.samples[k])")]},
     {"id": "c16-b-ifexp-cost", "file": _C, "find": "    fitness_k = float(jnp.sum(feedback))\n    if config.maximize:\n        fitness_k = -fitness_k\n", "replace": "    total = float(jnp.sum(feedback))\n    fitness_k = -total if config.maximize else total\n"},
     {"id": "c16-b-flat-comprehension", "file": _C, "find": "    flat_leaves = list(map(lambda x: x.ravel(), leaves))\n    return jnp.concatenate(flat_leaves, axis=0)", "replace": "    return jnp.concatenate([leaf.reshape(-1) for leaf in leaves])"},
     {"id": "c16-b-flatten-call", "file": _C, "nth": 1, "find": "    leaves = jax.tree_util.tree_leaves(state)\n    treedef = jax.tree_util.tree_structure(state)\n", "replace": "    leaves, treedef = jax.tree_util.tree_flatten(state)\n"},
